@@ -38,12 +38,13 @@ func init() {
 			"Memberlist.advertiseAddr": "Memberlist.advertiseLock", "Memberlist.advertisePort": "Memberlist.advertiseLock",
 		}, map[string]string{"newMemberlist": "constructor: the Memberlist is not published yet"}, 60)
 		checkRecordUseAfterUnlock(c)
-		checkLockOrder(c)
+		checkLockOrder(c, "C20")
 
 		// 5. Leave / UpdateNode never block past their timeout, and wait only when a live peer exists
 		l := c.leaveModel()
 		checkLeaveWait(c, l)
 		checkAnyAlive(c)
+		checkNotifyChannels(c, "C20") // the notification Leave / UpdateNode wait for cannot be dropped
 		// Leave after Shutdown is the one documented panic
 		for _, fn := range p.SortedFuncs() {
 			if !ast.IsExported(fn.Decl.Name.Name) {
@@ -850,7 +851,7 @@ func (c *Ctx) writtenFields() map[*types.Var]bool {
 
 // checkLockOrder: the held -> acquired relation over the package (through
 // calls) has no cycle.
-func checkLockOrder(c *Ctx) {
+func checkLockOrder(c *Ctx, prop string) {
 	p := c.P
 	rule := "lock order: the relation 'acquired while holding' over the package's mutexes (through calls) is acyclic"
 	c.Rule(rule)
@@ -913,7 +914,7 @@ func checkLockOrder(c *Ctx) {
 			ncl++
 			root := c.rootsOf(u.Fn)[0].Name
 			ord[root+"/"+mu]++
-			c.Check(fmt.Sprintf("C20/lock-order/closure-detached/%s/%s/%d", root, mu, ord[root+"/"+mu]), ruleD, u.Lit.Pos(), c.detachedLit(u.Lit),
+			c.Check(fmt.Sprintf("%s/lock-order/closure-detached/%s/%s/%d", prop, root, mu, ord[root+"/"+mu]), ruleD, u.Lit.Pos(), c.detachedLit(u.Lit),
 				fmt.Sprintf("closure created in %s while %s is held takes %s itself and may run synchronously (a use of it, or of the variable/parameter/field it flows through, is neither a go statement nor time.AfterFunc)", u.Fn.Name, mu, mu))
 		}
 	}
@@ -960,7 +961,7 @@ func checkLockOrder(c *Ctx) {
 			}
 			for held := range a.Held {
 				nre++
-				c.Check(fmt.Sprintf("C20/lock-order/no-reentry/%s->%s/%s", u.Name, callee.Name, held), ruleR, a.Pos, !acq[callee][held],
+				c.Check(fmt.Sprintf("%s/lock-order/no-reentry/%s->%s/%s", prop, u.Name, callee.Name, held), ruleR, a.Pos, !acq[callee][held],
 					fmt.Sprintf("%s calls %s while holding %s, and %s (or a function it calls) acquires %s again", u.Name, callee.Name, held, callee.Name, held))
 			}
 		}
@@ -1024,7 +1025,7 @@ func checkLockOrder(c *Ctx) {
 	if found {
 		why = "lock-order cycle: " + strings.Join(cyc, " -> ")
 	}
-	c.Check("C20/lock-order/acyclic", rule, token.NoPos, !found, why)
+	c.Check(prop+"/lock-order/acyclic", rule, token.NoPos, !found, why)
 	c.Extra["lock_order_edges"] = ne
 }
 
